@@ -319,6 +319,8 @@ async fn run_all(args: &Args, qs: &QueryServer, ctx: &mut Ctx) -> Result<(), Str
         let mut rd = qs.read().await.map_err(|e| format!("read txn: {e:?}"))?;
         kanidmd_lib::verif_hooks::c01::idxmeta_dump(rd.get_be_txn()).into_iter().filter(|(a, _, _)| atom(a) != 99).map(|(a, t, _)| (atom(&a), it_char(&t))).collect()
     };
+    let mut own = own;
+    own.sort();
     ctx.rep.note(format!("server's own layout on the four attributes: {}", layout_text(&own)));
     let nlayouts = args.cases(6, 40);
     let full = (1u32 << PAIRS.len()) - 1;
